@@ -291,6 +291,8 @@ def check(repo, rep, tier):
   R = 'R-TABLE:strict-pd-call-sites'
   before = len(rep.obs)
   c20.rule_strict_sites(repo, rep)
+  # ... and computed from the training pairs themselves (documented priors)
+  c20.rule_prior_inputs(repo, rep)
   rep.obs[before:] = [o for o in rep.obs[before:]
                       if o['construct'].startswith('ITML')]
 
